@@ -137,10 +137,79 @@ def gen_cloud(rnd, fudge):
     return atoms
 
 
+def gen_custom(rnd, fudge):
+    """Residues of a custom force field that is rebuilt for every case under ONE name: the blocks of a residue name differ
+    from case to case, as when a user reloads an edited force-field directory in one session."""
+    ffdesc = {'name': 'verif_c10_custom', 'blocks': {}}
+    for rn in rnd.sample(['RSA', 'RSB'], rnd.randint(1, 2)):
+        k = rnd.randint(2, 5)
+        names = ['C%d' % (i + 1) for i in range(k)]
+        edges = [[names[i], names[rnd.randrange(i)]] for i in range(1, k)]
+        if k > 3 and rnd.random() < 0.4:
+            u, v = rnd.sample(names, 2)
+            if [u, v] not in edges and [v, u] not in edges:
+                edges.append([u, v])
+        ffdesc['blocks'][rn] = {'names': names, 'edges': edges}
+    atoms = []
+    tag = 0
+    box = rnd.choice([0.4, 0.7, 1.5])
+    resid = rnd.choice([1, 0, 10])
+    for ri in range(rnd.randint(1, 4)):
+        rn = rnd.choice(sorted(ffdesc['blocks']))
+        resid += 1
+        for nm in ffdesc['blocks'][rn]['names']:
+            if rnd.random() < 0.1:
+                continue
+            atoms.append({'mol': 0 if ri < 2 else rnd.choice([0, 1]), 'tag': tag, 'atomname': nm, 'element': rnd.choice(['C', 'C', 'N', 'O']),
+                          'resname': rn, 'resid': resid, 'chain': 'A',
+                          'pos': [rnd.uniform(0, box), rnd.uniform(0, box), rnd.uniform(0, box)]})
+            tag += 1
+    atoms.sort(key=lambda a: a['mol'])
+    return atoms, ffdesc
+
+
+def case_blocks(case):
+    """resname -> graph of the reference block (node keys = atom names) for the force field of this case."""
+    if not case.get('ff'):
+        return ff().blocks
+    import networkx as nx
+    out = {}
+    for rn, b_ in case['ff']['blocks'].items():
+        g = nx.Graph()
+        g.add_nodes_from(b_['names'])
+        g.add_edges_from(b_['edges'])
+        out[rn] = g
+    return out
+
+
+def case_ff(case):
+    if not case.get('ff'):
+        return ff()
+    from vermouth.forcefield import ForceField
+    from vermouth.molecule import Block
+    f = ForceField(name=case['ff']['name'])
+    for rn, b_ in case['ff']['blocks'].items():
+        blk = Block(force_field=f)
+        blk.name = rn
+        for nm in b_['names']:
+            blk.add_atom({'atomname': nm, 'resname': rn, 'resid': 1, 'atype': 'x', 'charge_group': 1})
+        for u, v in b_['edges']:
+            blk.add_edge(u, v)
+        f.blocks[rn] = blk
+    return f
+
+
 def gen(rnd):
     fudge = rnd.choice([1.0, 1.0, 1.2, 1.2, 0.5, 0.8, 0.9, 1.5, 2.0])
-    kind = 'fragment' if rnd.random() < 0.65 else 'cloud'
-    atoms = gen_fragment(rnd) if kind == 'fragment' else gen_cloud(rnd, fudge)
+    r_ = rnd.random()
+    kind = 'fragment' if r_ < 0.55 else ('cloud' if r_ < 0.85 else 'custom')
+    ffdesc = None
+    if kind == 'custom':
+        atoms, ffdesc = gen_custom(rnd, fudge)
+        if not atoms:
+            kind = 'cloud'
+    if kind != 'custom':
+        atoms = gen_fragment(rnd) if kind == 'fragment' else gen_cloud(rnd, fudge)
     # group into input molecules, shuffle order inside, optional gapped keys, optional pre-existing edges
     mols = {}
     for a in atoms:
@@ -158,16 +227,20 @@ def gen(rnd):
         if len(lst) >= 2:
             a, c = rnd.sample(lst, 2)
             pre.append([a['tag'], c['tag']])
-    return {'kind': kind, 'mols': order, 'fudge': fudge, 'mode': mode, 'pre_edges': pre, 'gapped_keys': rnd.random() < 0.3}
+    out = {'kind': kind, 'mols': order, 'fudge': fudge, 'mode': mode, 'pre_edges': pre, 'gapped_keys': rnd.random() < 0.3}
+    if ffdesc:
+        out['ff'] = ffdesc
+    return out
 
 
 def run_real(case):
     from vermouth.molecule import Molecule
     from vermouth.processors.make_bonds import MakeBonds
     from vermouth.system import System
-    system = System(force_field=ff())
+    the_ff = case_ff(case)
+    system = System(force_field=the_ff)
     for lst in case['mols']:
-        mol = Molecule(force_field=ff())
+        mol = Molecule(force_field=the_ff)
         key = {}
         for i, a in enumerate(lst):
             k = i * 3 + 2 if case['gapped_keys'] else i
@@ -190,7 +263,7 @@ def reference(case):
     allow_name = case['mode'] in ('both', 'name')
     allow_dist = case['mode'] in ('both', 'dist')
     fudge = case['fudge']
-    blocks = ff().blocks
+    blocks = case_blocks(case)
     rid = {a['tag']: (a['mol'], a['chain'], a['resid'], a['resname'], None) for a in atoms}
     residues = {}
     for a in atoms:
